@@ -6,8 +6,9 @@ enumerate_outcomes(f)  depth-first search over all answers of an EnumeratingRNG:
                        yields f's result for every resolution of every random
                        choice, i.e. the exact support of a stochastic function.
 
-Supported calls (all the library uses): choice(n | seq [, size, replace=False]),
-integers(lo, hi [, endpoint]), shuffle(list), random(shape) (not enumerable).
+Supported calls: choice(n | seq [, size, replace=False]), integers(lo, hi [, size, endpoint]), shuffle(list),
+permutation(n | seq); random(shape) and every other Generator method raise NotEnumerable (the caller then samples
+with real generators instead of enumerating).
 Argument errors mimic numpy (ValueError), because move_obstacles relies on
 `choice(0)` raising.
 """
@@ -72,7 +73,9 @@ class _Base:
 
     def integers(self, low, high=None, size=None, dtype=np.int64, endpoint=False):
         if size is not None:
-            raise NotEnumerable('integers with size')
+            if not isinstance(size, (int, np.integer)) or isinstance(low, (list, tuple, np.ndarray)) or isinstance(high, (list, tuple, np.ndarray)):
+                raise NotEnumerable('integers with array arguments')
+            return np.array([self.integers(low, high, None, dtype, endpoint) for _ in range(int(size))], dtype=dtype)
         if high is None:
             low, high = 0, low
         low, high = int(low), int(high)
@@ -96,8 +99,29 @@ class _Base:
         for t, j in enumerate(order):
             x[t] = items[j]
 
+    def permutation(self, x, axis=0):
+        items = list(range(int(x))) if isinstance(x, (int, np.integer)) else list(x)
+        self.shuffle(items)
+        if isinstance(x, (int, np.integer)):
+            return np.array(items, dtype=np.int64)
+        out = np.empty(len(items), dtype=object) if not isinstance(x, np.ndarray) else np.array(items, dtype=x.dtype)
+        if not isinstance(x, np.ndarray):
+            for t, v in enumerate(items):
+                out[t] = v
+        return out
+
     def random(self, size=None, dtype=np.float64, out=None):
         raise NotEnumerable('random()')
+
+    def __getattr__(self, name):
+        # any other method of numpy's Generator (uniform, normal, permuted, bytes, ...): a correct refactoring may use it;
+        # the exact support cannot be enumerated then and the caller falls back to sampling with real generators
+        if name.startswith('__'):
+            raise AttributeError(name)
+
+        def not_enumerable(*args, **kwargs):
+            raise NotEnumerable(name)
+        return not_enumerable
 
 
 class ScriptedRNG(_Base):
